@@ -7,7 +7,7 @@ pub open spec fn reaped_or_detached(p: Popen, w: BW) -> bool {
     p.child_state is Running && !p.detached ==> w.stages[p.child_state->pid as int].reaped
 }
 pub open spec fn same_stages_mod_reaped(a: BW, b: BW) -> bool {
-    a.parked == b.parked && a.inheritable == b.inheritable && a.stages.len() == b.stages.len() && forall|i: int| 0 <= i < a.stages.len() ==> (#[trigger] b.stages[i]) == (Stage { reaped: b.stages[i].reaped, ..a.stages[i] }) && (a.stages[i].reaped ==> b.stages[i].reaped)
+    a.parked == b.parked && a.inheritable == b.inheritable && a.full_reads == b.full_reads && a.stages.len() == b.stages.len() && forall|i: int| 0 <= i < a.stages.len() ==> (#[trigger] b.stages[i]) == (Stage { reaped: b.stages[i].reaped, ..a.stages[i] }) && (a.stages[i].reaped ==> b.stages[i].reaped)
 }
 
 pub fn drop_glue_read_out_adapter(a: ReadOutAdapter, Tracked(w): Tracked<&mut World>)
